@@ -291,6 +291,16 @@ impl Sut {
                 let d2 = decoy.clone();
                 m.register_join("j".into(), mk_node("L", "R", case.w_ms, case.cond_le), Box::new(move |j| s2.lock().unwrap().push(j)));
                 m.register_join("decoy".into(), mk_node("L", "X", case.w_ms, case.cond_le), Box::new(move |j| d2.lock().unwrap().push(j)));
+                // Every second manager (by the case's salt) also hosts joins in which the streams play the OTHER part:
+                // one whose LEFT input is R (the right input of the join under test) and one whose RIGHT input is L;
+                // every fourth has unregistered the first of them again. A stream is left or right per join, not globally.
+                if crate::core::case_bit(9) {
+                    m.register_join("r-as-left".into(), mk_node("R", "Y", case.w_ms, case.cond_le), Box::new(|_| {}));
+                    m.register_join("l-as-right".into(), mk_node("Z", "L", case.w_ms, case.cond_le), Box::new(|_| {}));
+                    if crate::core::case_bit(19) {
+                        m.unregister_join("r-as-left");
+                    }
+                }
                 Sut::Mgr { m, sink, decoy, wm_streams }
             }
         }
